@@ -156,7 +156,7 @@ func runLeakWorker(cases []*leakCase) {
 	}()
 	select {
 	case <-done:
-	case <-time.After(time.Duration(30+len(cases)*3) * time.Second):
+	case <-time.After(time.Duration(90+len(cases)*6) * time.Second):
 		cmd.Process.Kill()
 	}
 	cmd.Wait()
@@ -200,6 +200,26 @@ func runC12(c *Ctx) {
 		add("parallel-early-stop:contains", "eval", "30 ~ "+src, er)
 		add("parallel-error-downstream", "eval", src+".map(e -> if e > 30 then throw(\"x\") else e).sum()", er)
 	}
+	// the consumer behind a stage that has gone parallel panics (host function, stack guard), also inside try
+	for _, src := range []string{par, parAcc} {
+		add("parallel-consumer-panics", "eval", src+".mapReduce(0, (s, e) -> if e > 30 then boom(e) else s + e)", er)
+		add("parallel-consumer-panics-in-try", "eval", "try "+src+".mapReduce(0, (s, e) -> if e > 30 then boom(e) else s + e) catch 0", er)
+		add("parallel-consumer-stack-guard", "eval", "func deep(n) 1 + deep(n + 1); "+src+".mapReduce(0, (s, e) -> if e > 30 then deep(0) else s + e)", er)
+		add("parallel-consumer-fails", "eval", src+".mapReduce(0, (s, e) -> if e > 30 then fail(e) else s + e)", er)
+		add("parallel-worker-panics", "eval", "numbers(100000).map(e -> if e = 40 then boom(e) else slow(e)).sum()", er)
+	}
+	// misuse error paths of the operations that start goroutines
+	add("multiUse-rejected-entry-last", "eval", "numbers(100).multiUse({a: l -> l.size(), b: 3})", er*5)
+	add("multiUse-rejected-entry-first", "eval", "numbers(100).multiUse({b: 3, a: l -> l.size()})", er*5)
+	add("multiUse-rejected-arity", "eval", "numbers(100).multiUse({a: l -> l.size(), c: l -> l.sum(), b: (p, q) -> p})", er*5)
+	add("multiUse-consumer-ignores-list(5s-timeout-path)", "eval", "numbers(100000).multiUse({a: l -> 1, b: l -> l.first()}).a", 2)
+	add("multiUse-consumer-panics", "eval", "numbers(1000).multiUse({a: l -> l.map(e -> boom(e)).sum(), b: l -> l.size()}).a", er*5)
+	add("multiUse-lazy-result", "eval", "numbers(50).multiUse({a: l -> l.map(e -> e + 1), b: l -> l.combine((p, q) -> p + q)}).b.size()", er*5)
+	add("merge-not-a-list", "eval", "numbers(100).merge(3, (p, q) -> p < q).size()", er*5)
+	add("merge-less-fails", "eval", "numbers(100000).merge(numbers(100000), (p, q) -> throw(\"x\")).size()", er*5)
+	add("merge-less-panics", "eval", "numbers(100000).merge(numbers(100000), (p, q) -> boom(p)).size()", er*5)
+	add("merge-of-parallel-operands-early-stop", "eval", par+".merge("+par+", (p, q) -> p < q).top(20).size()", er)
+	add("cross-inner-parallel-early-stop", "eval", "[1, 2, 3].cross("+par+".top(30), (p, q) -> p + q).size()", er)
 	add("parallel-error-in-worker", "eval", "numbers(100000).map(e -> if e = 40 then throw(\"x\") else slow(e)).sum()", er)
 	add("parallel-complete", "eval", "numbers(60).map(e -> slow(e)).sum()", er)
 	add("parallel-unconsumed", "eval", "let l = numbers(1000).map(e -> slow(e)); 1", er)
